@@ -28,10 +28,14 @@ SLOT = {"q2": 0, "p2": 1, "q3": 2, "p3": 3}
 
 
 def excess(seq, expo, floor=1e-12):
+    """How far the successive-doubling ratios fall BELOW the law r^expo (in powers of two, beyond a factor 4 of slack).
+    'Vanish like r^(N+1)' is a lower bound on the decay: a defect that decays faster (leading term absent by symmetry)
+    satisfies it, so only ratios smaller than 2^(expo-2) count.  Ratios whose smaller member is below the rounding floor
+    are not evaluated."""
     ex = 0.0
     for a, b in zip(seq, seq[1:]):
-        if a > floor:
-            ex = max(ex, max(0.0, abs(math.log2(b / a) - expo) - 2.0))
+        if a > floor and b > floor:
+            ex = max(ex, max(0.0, (expo - 2.0) - math.log2(b / a)))
     return ex
 
 
@@ -88,8 +92,10 @@ def main(tier=None, replay=None):
                 en.append(abs((crtbp_energy(s, mu) - EL) / g ** 2 - hcm(cm, polyH, clmo, p)))
             cs.obs(t, "round_trip_small", rt[0])
             cs.obs(t, "energy_small", en[0])
+            efloor = 1e3 * 2.2e-16 * max(1.0, abs(EL)) / g ** 2     # rounding of (E - E_L) / gamma^2
             cs.obs(t, "round_trip_law_excess", excess(rt, N + 1))
-            cs.obs(t, "energy_law_excess", excess(en, N + 1))
+            cs.obs(t, "energy_law_excess", excess(en, N + 1, floor=max(1e-12, efloor)))
+            t["data"] = dict(c, round_trip_defects=rt, energy_defects=en)
             if len(ck.cov["samples"]) < 3:
                 ck.sample({"case": label, "round_trip_defects": rt, "energy_defects": en})
         else:
@@ -109,8 +115,10 @@ def main(tier=None, replay=None):
                 lev.append(abs((crtbp_energy(s, mu) - EL) / g ** 2 - h0))
             cs.obs(t, "on_section_small", sec[0])
             cs.obs(t, "on_level_small", lev[0])
+            efloor = 1e3 * 2.2e-16 * max(1.0, abs(EL)) / g ** 2
             cs.obs(t, "on_section_law_excess", excess(sec, N + 1))
-            cs.obs(t, "on_level_law_excess", excess(lev, N + 1))
+            cs.obs(t, "on_level_law_excess", excess(lev, N + 1, floor=max(1e-12, efloor)))
+            t["data"] = dict(c, section_defects=sec, level_defects=lev)
             if len(ck.cov["samples"]) < 5:
                 ck.sample({"case": label, "section_defects": sec, "level_defects": lev})
     cs.decide(key_fn=lambda t, n: f"center-manifold|{t['data']['kind']}|{n}")
